@@ -22,7 +22,8 @@ from lib.vcommon import PY, VERIF, coq_list, coq_str, coq_z, impl_env
 MARK = "(* ==== INSTANCE ===="
 KINDS = ["iaf_cells", "pulse_generators", "exp_one_synapses", "izhikevich_cells"]
 INSTANCE_THEOREMS = ["C07_state_ok", "C07_loads_history_independent", "C07_builders_do_not_interfere",
-                     "C07_no_default_is_mutated", "C07_every_field_is_per_instance", "C07_no_written_global_is_read"]
+                     "C07_no_default_is_mutated", "C07_every_field_is_per_instance", "C07_no_written_global_is_read",
+                     "C07_class_metadata_is_constant"]
 
 
 # --------------------------------------------------------------------------------------- translator
@@ -56,23 +57,28 @@ def gen_table(d):
     gs = ["{| gs_module := %s; gs_name := %s; gs_writers := %s; gs_readers := %s |}"
           % (coq_str(x["module"]), coq_str(x["name"]), coq_list([coq_str(w) for w in x["writers"]]),
              coq_list([coq_str(r) for r in x["readers"]])) for x in d["globals"]]
+    cm = ["{| cm_module := %s; cm_attr := %s; cm_kind := %s; cm_classes := %s; cm_mutated := %s; cm_aliases := %s |}"
+          % (coq_str(x["module"]), coq_str(x["attr"]), "MMemo" if x["kind"] == "memo" else "MMetadata", coq_z(x["classes"]),
+             b(x["mutated"]), b(x["aliases"])) for x in d.get("classmeta", [])]
     mode = {"none": "DNone", "shared": "DSharedList"}
     ms = d["entry_defaults"].get("modes", {})
-    lines = ["From Coq Require Import String List Bool.", "From LNML Require Import Model.State.",
+    lines = ["From Coq Require Import String List Bool ZArith.", "From LNML Require Import Model.State.",
              "Import ListNotations.", "Open Scope string_scope.",
              "Definition table : state_table := {|",
              "  st_defaults := %s;" % coq_list(ds).replace("; {|", ";\n    {|"),
              "  st_fields := %s;" % coq_list(fs).replace("; {|", ";\n    {|"),
-             "  st_globals := %s |}." % coq_list(gs).replace("; {|", ";\n    {|")]
+             "  st_globals := %s;" % coq_list(gs).replace("; {|", ";\n    {|"),
+             "  st_classmeta := %s |}." % coq_list(cm).replace("; {|", ";\n    {|")]
     shp = d["entry_defaults"].get("shape", {})
     lines += ["(* the version-dependent places of loaders.py / NetworkBuilder.py, read off the source *)",
               "Definition shape : lshape := {| sh_mark_entry := %s; sh_append_first := %s; sh_h5_threads := %s |}."
               % (b(shp.get("mark_entry")), b(shp.get("append_first")), b(shp.get("h5_threads"))),
               "Definition elec_guard : bool := %s." % b(d.get("builder_shape", {}).get("elec_weight_guard"))]
-    if all(ms.get(k) in mode for k in ("read_neuroml2_file", "read_neuroml2_string", "_read_neuroml2")):
+    if all(ms.get(k) in mode for k in ("read_neuroml2_file", "read_neuroml2_string", "_read_neuroml2", "NeuroMLHdf5Loader.load")):
         lines += ["(* cross-check: what the translator itself says about the loader defaults and the placements *)",
-                  "Lemma modes_agree : modes_of table = {| m_file := %s; m_string := %s; m_inner := %s |}."
-                  % (mode[ms["read_neuroml2_file"]], mode[ms["read_neuroml2_string"]], mode[ms["_read_neuroml2"]]),
+                  "Lemma modes_agree : modes_of table = {| m_file := %s; m_string := %s; m_inner := %s; m_h5 := %s |}."
+                  % (mode[ms["read_neuroml2_file"]], mode[ms["read_neuroml2_string"]], mode[ms["_read_neuroml2"]],
+                     mode[ms["NeuroMLHdf5Loader.load"]]),
                   "Proof. vm_compute. reflexivity. Qed."]
     lines += ["Lemma placements_agree : map field_shared (st_fields table) = %s."
               % coq_list([b(x["placement"] == "Shared") for x in d["fields"]]),
@@ -84,6 +90,7 @@ INST = {
     "defaults": "Lemma defaults_ok : mutated_defaults Gen_C07.table = [].\nProof. vm_compute. reflexivity. Qed.\n",
     "fields": "Lemma fields_ok : all_own Gen_C07.table = true.\nProof. vm_compute. reflexivity. Qed.\n",
     "globals": "Lemma globals_ok : globals_read Gen_C07.table = [].\nProof. vm_compute. reflexivity. Qed.\n",
+    "classmeta": "Lemma classmeta_ok : mutated_class_attrs Gen_C07.table = [].\nProof. vm_compute. reflexivity. Qed.\n",
 }
 HEAD = ("From Coq Require Import String List Bool ZArith.\nFrom LNML Require Import Model.State Proofs.StateP.\n"
         "From Run Require Import Gen_C07.\nImport ListNotations.\nOpen Scope string_scope.\n")
@@ -124,6 +131,8 @@ def table_and_props(ck, d):
                 ref.append("Lemma interleave_refuted_for_this_table :\n"
                            "  bdump (placement_of Gen_C07.table) WA (brun Gen_C07.elec_guard (placement_of Gen_C07.table) wit_sched bsys0)\n"
                            "  <> solo_dump Gen_C07.elec_guard (ops_of WA wit_sched).\nProof. vm_compute. discriminate. Qed.\n")
+        if not inst_ok["classmeta"]:
+            ref.append("Lemma classmeta_refuted : mutated_class_attrs Gen_C07.table <> [].\nProof. vm_compute. discriminate. Qed.\n")
         if not inst_ok["globals"]:
             ref.append("Lemma globals_refuted : globals_read Gen_C07.table <> [].\nProof. vm_compute. discriminate. Qed.\n")
         rp = ck.gen_v("Refuted_C07.v", "".join(ref))
@@ -148,7 +157,25 @@ W_POOL.append({"name": "w_plain.nml.h5", "kind": "h5", "items": [["iaf_cells", "
                "net": {"id": "wplain", "pops": [{"id": "p0", "comp": "iafp", "size": 2},
                                                 {"id": "p1", "comp": "iafp", "size": 1, "instances": [[0, 1, 2, 3]]}],
                        "projs": [{"id": "pr0", "pre": "p0", "post": "p1", "syn": "nosyn", "conns": [[0, "../p0[0]", "../p1/0/iafp"]]}]}})
+W_POOL += [
+    # X: top-level <annotation/> and a population whose component is defined nowhere (a LEMS-style reference)
+    {"name": "w_x.nml", "kind": "xml", "items": [], "includes": [], "annotation": True,
+     "net": {"id": "netX", "pops": [{"id": "popX", "comp": "lemsOscillator", "size": 2}], "projs": [], "ilists": []}},
+    {"name": "w_x.nml.h5", "kind": "h5", "items": [], "includes": [], "annotation": True,
+     "net": {"id": "netX", "pops": [{"id": "popX", "comp": "lemsOscillator", "size": 2}], "projs": [], "ilists": []}},
+    # Y: everything resolves, so the builders call nml_doc.append(component_obj)
+    {"name": "w_y.nml", "kind": "xml", "items": [["izhikevich_cells", "izh0"]], "includes": [],
+     "net": {"id": "netY", "pops": [{"id": "popY", "comp": "izh0", "size": 3}], "projs": [], "ilists": []}},
+    {"name": "w_y.nml.h5", "kind": "h5", "items": [["izhikevich_cells", "izh0"]], "includes": [],
+     "net": {"id": "netY", "pops": [{"id": "popY", "comp": "izh0", "size": 3}], "projs": [], "ilists": []}},
+]
 W_HIST = [
+    ("HDF5 loads X, Y, X: X has a top-level annotation and an unresolved component; Y's build calls nml_doc.append()",
+     [{"ep": "h5", "name": "w_x.nml.h5"}, {"ep": "h5", "name": "w_y.nml.h5"}, {"ep": "h5", "name": "w_x.nml.h5"}]),
+    ("XML-parser driven NetworkBuilder builds X, Y, X",
+     [{"ep": "xmlparser", "name": "w_x.nml"}, {"ep": "xmlparser", "name": "w_y.nml"}, {"ep": "xmlparser", "name": "w_x.nml"}]),
+    ("read_neuroml2_file on HDF5: Y then X",
+     [{"ep": "file", "name": "w_y.nml.h5", "incl": True}, {"ep": "file", "name": "w_x.nml.h5", "incl": True}]),
     ("optimized HDF5 load without includes, document used (append + iterate), second optimized load: the default index "
      "table of the new document's lists is the one the first document wrote into",
      [{"ep": "h5", "name": "w_plain.nml.h5", "opt": True, "use": True}, {"ep": "h5", "name": "w_plain.nml.h5", "opt": True}]),
@@ -167,7 +194,7 @@ def gen_net(rng, tag, comps, syns, pgs):
     pops = []
     ids = rng.sample(["p0", "p1", "p2"], rng.choice([2, 2, 3]))
     for pid in ids:
-        p = {"id": pid, "comp": rng.choice(comps), "size": rng.randint(1, 3)}
+        p = {"id": pid, "comp": rng.choice(comps) if rng.random() < 0.7 else "lems_" + tag, "size": rng.randint(1, 3)}
         if rng.random() < 0.5:
             p["instances"] = [[i, rng.randint(0, 9), rng.randint(0, 9), rng.randint(0, 9)] for i in range(p["size"])]
         pops.append(p)
@@ -177,14 +204,15 @@ def gen_net(rng, tag, comps, syns, pgs):
     projs = []
     for k in range(rng.choice([1, 1, 2])):
         a, c = rng.choice(pops), rng.choice(pops)
-        pr = {"id": "pr%d" % k, "pre": a["id"], "post": c["id"], "syn": rng.choice(syns), "conns": [], "conn_wds": []}
+        pr = {"id": "pr%d" % k, "pre": a["id"], "post": c["id"], "syn": rng.choice(syns) if rng.random() < 0.7 else "lemsSyn_" + tag,
+              "conns": [], "conn_wds": []}
         for cid in range(rng.randint(1, 3)):
             pr["conns"].append([cid, path(a, rng.randrange(a["size"])), path(c, rng.randrange(c["size"]))])
         projs.append(pr)
     ils = []
     if rng.random() < 0.7:
         a = rng.choice(pops)
-        ils.append({"id": "il0", "comp": rng.choice(pgs), "pop": a["id"],
+        ils.append({"id": "il0", "comp": rng.choice(pgs) if rng.random() < 0.7 else "lemsInput_" + tag, "pop": a["id"],
                     "inputs": [[i, path(a, rng.randrange(a["size"]))] for i in range(rng.randint(1, 2))]})
     return {"id": "net" + tag, "pops": pops, "projs": projs, "ilists": ils}
 
@@ -213,14 +241,14 @@ def gen_pool(rng, n_xml):
         syns = [c for x in incs for k, c in specs[x]["items"] if k == "exp_one_synapses"] or ["nosyn"]
         pgs = [c for x in incs for k, c in specs[x]["items"] if k == "pulse_generators"] or ["nopg"]
         specs[hn] = {"name": hn, "kind": "h5", "items": [["pulse_generators", "hpg%d" % j]], "includes": incs,
-                     "net": gen_net(rng, "h%d" % j, comps, syns, pgs)}
+                     "annotation": rng.random() < 0.6, "net": gen_net(rng, "h%d" % j, comps, syns, pgs)}
     for j, xn in enumerate(["netx.nml", "nety.nml"]):
         incs = [x for x in names[3:] if rng.random() < 0.45] or [names[-1]]
         comps = [c for x in incs for k, c in specs[x]["items"] if k in ("iaf_cells", "izhikevich_cells")] or ["nocell"]
         syns = [c for x in incs for k, c in specs[x]["items"] if k == "exp_one_synapses"] or ["nosyn"]
         pgs = [c for x in incs for k, c in specs[x]["items"] if k == "pulse_generators"] or ["nopg"]
         specs[xn] = {"name": xn, "kind": "xml", "items": [["pulse_generators", "xpg%d" % j]], "includes": incs,
-                     "net": gen_net(rng, "x%d" % j, comps, syns, pgs)}
+                     "annotation": rng.random() < 0.6, "net": gen_net(rng, "x%d" % j, comps, syns, pgs)}
     pool += [specs[n] for n in names + h5 + ["netx.nml", "nety.nml"]]
     pool.append({"name": "bad_ext.nml", "kind": "xml", "items": [["iaf_cells", "cb"]], "includes": [names[-1], "notes.txt"]})
     pool.append({"name": "bad_missing.nml", "kind": "xml", "items": [["iaf_cells", "cm"]], "includes": [names[-2], "nonexistent.nml"]})
@@ -310,8 +338,10 @@ def impl_res_term(r):
 
 
 def classify_hist_diff(fresh, got):
-    if fresh.get("ok") != got.get("ok"):
-        return "exception-differs"
+    if fresh.get("ok") and not got.get("ok"):
+        return "raises-only-after-other-loads"
+    if got.get("ok") and not fresh.get("ok"):
+        return "raises-only-in-a-fresh-process"
     if not fresh.get("ok"):
         return "exception-differs" if fresh.get("err") != got.get("err") else None
     if fresh["items"] != got["items"]:
@@ -379,6 +409,15 @@ def run_histories(ck, d, tmp, modes_known, pi=0):
             ck.count(1, nontrivial_key=("hist", [calls[x] for x in h[:pos + 1]]) if nontriv else None,
                      sample={"history": [calls[x] for x in h], "position": pos} if pi == 0 and hi == len(W_HIST) and pos == 1 else None)
             ck.tally("history-call:" + c["ep"] + (":includes" if c.get("incl") else ""))
+            for chg in r.get("class_metadata_changed", []):
+                nw += 1
+                ck.witness("C07:class-metadata-changed:" + chg["what"].split("[")[0],
+                           "a loader call changed class-level metadata of the bindings at run time: %s went from length %s to %s"
+                           % (chg["what"], chg["before_len"], chg["after_len"]),
+                           input={"kind": "history", "pool": prune_pool(pool, [calls[x] for x in h[:pos + 1]]),
+                                  "calls": [calls[x] for x in h[:pos + 1]], "invariant": "class-metadata"},
+                           expected={"class_metadata_changed": []}, observed={"class_metadata_changed": r["class_metadata_changed"]},
+                           broken="Inst_C07_classmeta.v:classmeta_ok")
             cls = classify_hist_diff(fresh[ci], r)
             if cls:
                 nw += 1
@@ -387,7 +426,8 @@ def run_histories(ck, d, tmp, modes_known, pi=0):
                            % (pos + 1, cls, ": " + W_HIST[hi][0] if hi < len(W_HIST) else ""),
                            input={"kind": "history", "pool": prune_pool(pool, [calls[x] for x in h[:pos + 1]]),
                                   "calls": [calls[x] for x in h[:pos + 1]]},
-                           expected=brief(fresh[ci]), observed=brief(r), broken="Inst_C07_defaults.v:defaults_ok")
+                           expected=brief(fresh[ci]), observed=brief(r),
+                           broken="Inst_C07_classmeta.v:classmeta_ok" if cls.startswith("raises-only") else "Inst_C07_defaults.v:defaults_ok")
         ck.tally("history-length:%d" % len(h))
     ck.extra["history_positions_differing_from_fresh"] = ck.extra.get("history_positions_differing_from_fresh", 0) + nw
     ck.extra["distinct_loader_calls"] = ck.extra.get("distinct_loader_calls", 0) + len(used)
@@ -435,7 +475,7 @@ def prune_pool(pool, calls):
 
 def brief(r):
     if not r.get("ok"):
-        return {"raised": r.get("err")}
+        return {"raised": r.get("err"), "message": r.get("msg")}
     out = {"items": r["items"], "meta": r.get("meta")}
     if r.get("includes"):
         out["includes"] = r["includes"]
@@ -479,7 +519,8 @@ def gen_stream(rng, tag):
         post = rng.choice(pops)
         kind = rng.choice(kinds)
         syn = "syn" + tag
-        body.append(["proj", pid, pre, post, syn, kind, rng.random() < 0.3, rng.random() < 0.3])
+        body.append(["proj", pid, pre, post, syn, kind, rng.random() < 0.3, rng.random() < 0.3,
+                     ("pre" + tag + pid if rng.random() < 0.5 else "preShared") if rng.random() < 0.3 else None])
         for cid in range(rng.randint(0, 3)):
             body.append(["conn", pid if rng.random() < 0.93 else "prX", cid, pre, post, rng.randrange(3), rng.randrange(3),
                          rng.choice([0, 0, 5]), rng.choice([1, 1, 1, 2])])
@@ -543,7 +584,8 @@ def op_term(o):
         return "OpLocation %s %s %s" % (coq_z(o[1]), s(o[2]), xyz)
     pk = {"projection": "PProj", "electricalProjection": "PElec", "continuousProjection": "PCont"}
     if k == "proj":
-        return "OpProjection %s %s %s %s %s %s %s" % (s(o[1]), s(o[2]), s(o[3]), s(o[4]), pk[o[5]], b(o[6]), b(o[7]))
+        pre = "None" if len(o) <= 8 or o[8] is None else "(Some %s)" % s(o[8])
+        return "OpProjection %s %s %s %s %s %s %s %s" % (s(o[1]), s(o[2]), s(o[3]), s(o[4]), pk[o[5]], b(o[6]), b(o[7]), pre)
     if k == "conn":
         return "OpConnection %s %s %s %s %s %s %s %s" % (s(o[1]), coq_z(o[2]), s(o[3]), s(o[4]), coq_z(o[5]), coq_z(o[6]),
                                                          coq_z(o[7]), coq_z(o[8]))
@@ -572,6 +614,35 @@ def first_diff(a, c):
     return None
 
 
+def directed_schedules():
+    """one stored schedule per dict of NetworkBuilder: if that dict alone is shared, builder A's document differs from its
+    solo run.  Shape: A's prefix, all of B, A's last call."""
+    head = lambda t: [["doc", "doc" + t], ["net", "net" + t], ["pop", "p", "cell" + t, 2]]
+    conn = ["conn", "pr", 0, "p", "p", 0, 1, 0, 1]
+    cases = [
+        ("populations", head("A") + [["loc", 0, "p", 1, 2, 3]], head("B")),
+        ("projections", head("A") + [["proj", "pr", "p", "p", "synA", "projection", False, False, None], conn],
+         head("B") + [["proj", "pr", "p", "p", "synB", "projection", False, False, None]]),
+        ("projection_syns", head("A") + [["proj", "pr", "p", "p", "synA", "electricalProjection", False, False, None], conn],
+         head("B") + [["proj", "pr", "p", "p", "synB", "electricalProjection", False, False, None]]),
+        ("projection_types", head("A") + [["proj", "pr", "p", "p", "synA", "projection", False, False, None],
+                                          ["fin", "pr", "p", "p", "synA", None]],
+         head("B") + [["proj", "pr", "p", "p", "synB", "electricalProjection", False, False, None]]),
+        ("projection_syns_pre", head("A") + [["proj", "pr", "p", "p", "synA", "continuousProjection", False, False, "preA"], conn],
+         head("B") + [["proj", "pr", "p", "p", "synB", "continuousProjection", False, False, "preB"]]),
+        ("input_lists", head("A") + [["il", "il0", "p", "pgA"], ["inp", "il0", 0, 1, 1]],
+         head("B") + [["il", "il0", "p", "pgB"]]),
+        # A's projection carries weights/delays, B's does not; A's connection has weight 1 and delay 0
+        ("weightDelays", head("A") + [["proj", "pr", "p", "p", "synA", "projection", True, True, None], conn],
+         head("B") + [["proj", "pr", "p", "p", "synB", "projection", False, False, None]]),
+    ]
+    out = []
+    for name, sa, sb in cases:
+        sched = [["A", o] for o in sa[:-1]] + [["B", o] for o in sb] + [["A", sa[-1]]]
+        out.append((name, sa, sb, sched))
+    return out
+
+
 def run_schedules(ck, tmp, pool, placement_known):
     rng = ck.rng
     npairs = ck.n(14, 320)
@@ -581,6 +652,10 @@ def run_schedules(ck, tmp, pool, placement_known):
     wb = [["doc", "docB"], ["net", "netB"], ["pop", "p", "cellB", 1]]
     streams += [wa, wb]
     scheds.append((0, 1, "stored", [["A", wa[0]], ["A", wa[1]], ["A", wa[2]], ["B", wb[0]], ["B", wb[1]], ["B", wb[2]], ["A", wa[3]]]))
+    for name, sa, sb, sched in directed_schedules():
+        ia = len(streams)
+        streams += [sa, sb]
+        scheds.append((ia, ia + 1, "stored:" + name, sched))
     for _ in range(npairs):
         sa, sb = gen_stream(rng, "A"), gen_stream(rng, "B")
         ia = len(streams)
@@ -613,16 +688,17 @@ def run_schedules(ck, tmp, pool, placement_known):
     for (ia, ib, order, sched), r in zip(scheds, sres):
         shared_ids = {o2[1] for o2 in streams[ia] if o2[0] in ("pop", "proj", "il")} & \
                      {o2[1] for o2 in streams[ib] if o2[0] in ("pop", "proj", "il")}
-        ck.count(1, nontrivial_key=("sched", sched) if shared_ids and order != "stored" or order == "stored" else None,
+        ck.count(1, nontrivial_key=("sched", sched) if shared_ids or order.startswith("stored") else None,
                  sample={"schedule": sched} if order == "alt" and ia == 2 else None)
-        ck.tally("schedule-order:" + order)
+        ck.tally("schedule-order:" + order.split(":")[0])
         ck.tally("schedule-length:%d" % (10 * (len(sched) // 10)))
         for w, si in (("A", ia), ("B", ib)):
             if r[w] != solo[si]:
                 nbad += 1
-                ck.witness("C07:interleave:shared-builder-dict",
+                ck.witness("C07:interleave:shared-builder-dict" + (":" + order.split(":")[1] if order.startswith("stored:") else ""),
                            "builder %s of an interleaved pair ends with a different document than when its handler calls "
-                           "run alone in a fresh process" % w,
+                           "run alone in a fresh process%s" % (w, " (directed schedule for the dict `%s`)" % order.split(":")[1]
+                                                               if order.startswith("stored:") else ""),
                            input={"kind": "schedule", "sched": sched, "builder": w},
                            expected={"solo": solo[si]}, observed={"interleaved": r[w],
                                                                   "first_difference": first_diff(solo[si]["dump"], r[w]["dump"])},
@@ -718,7 +794,9 @@ def run(ck):
                          "mutated_defaults": ["%s.%s(%s)" % (x["module"], x["func"], x["param"]) for x in d["defaults"]
                                               if x["mutated"] or x["escapes"]],
                          "shared_fields": ["%s.%s" % (x["cls"], x["attr"]) for x in d["fields"] if x["placement"] == "Shared"],
-                         "globals_read": ["%s.%s" % (x["module"], x["name"]) for x in d["globals"] if x["readers"]]}
+                         "globals_read": ["%s.%s" % (x["module"], x["name"]) for x in d["globals"] if x["readers"]],
+                         "class_metadata": [{"attr": x["attr"], "kind": x["kind"], "classes": x["classes"], "mutated": x["mutated"],
+                                             "aliases": x["aliases"], "why": x["why"][:200]} for x in d.get("classmeta", [])]}
     for x in d["defaults"]:
         ck.count(1, nontrivial_key=("default", x["module"], x["func"], x["param"]))
         ck.tally("table:default-site")
@@ -728,6 +806,9 @@ def run(ck):
     # a global that is written AND read is a cache: name it as the failing program point; the histories below look for an input
     for g in d["globals"]:
         ck.tally("table:written-global")
+    for x in d.get("classmeta", []):
+        ck.count(1, nontrivial_key=("classmeta", x["attr"]))
+        ck.tally("table:class-" + x["kind"])
     gen_ok = bool(inst_ok)
     for pi in range(ck.n(1, 4)):
         tmp = tempfile.mkdtemp(prefix="c07_")
